@@ -138,6 +138,8 @@ int main(int argc, char **argv) {
             for (size_t i = 0; i < cap; ++i) {
                 buf[i] = i < prelen ? (uint8_t)(0x50 + i) : 0xEE;
             }
+            uint8_t *pre = malloc(prelen ? prelen : 1);
+            memcpy(pre, buf, prelen);
             struct aws_byte_buf out = aws_byte_buf_from_empty_array(buf, cap);
             out.len = prelen;
             int rc = sh ? aws_date_time_to_utc_time_short_str(&dt, f, &out) : aws_date_time_to_utc_time_str(&dt, f, &out);
@@ -145,7 +147,8 @@ int main(int argc, char **argv) {
             vh_str("fmt", vh_args(1));
             vh_int("short", sh);
             vh_int("cap", (long long)cap);
-            vh_int("prelen", (long long)prelen);
+            vh_bytes("pre", pre, prelen);
+            free(pre);
             vh_rc(rc);
             vh_int("len", (long long)(out.len > 100000 ? 100000 : out.len));
             vh_bytes("out", buf, out.len <= cap ? out.len : 0);
@@ -179,8 +182,7 @@ int main(int argc, char **argv) {
             struct aws_byte_cursor c = aws_byte_cursor_from_array(t, n);
             int rc = aws_date_time_init_from_str_cursor(&dt, &c, f);
             have = rc == 0;
-            vh_begin("Parse");
-            vh_str("src", last ? "last" : "text");
+            vh_begin(last ? "ParseLast" : "ParseText");
             vh_str("fmt", vh_args(1));
             vh_bytes("text", t, n);
             if (!last) {
